@@ -109,6 +109,26 @@ CHECKS["C07"] = {
     "technique": TECH + "role-typed scatter/gather patterns on the compressed-column walk, guard/result-length agreement",
 }
 
+CHECKS["C08"] = {
+    "text": "For all four Krylov solvers and every input: every return Ok is control-dependent on `R <= tol` (tol unmodified) with R defined as the norm of a tracked "
+            "vector over normb; that vector is, as a symbolic linear combination, exactly the residual of the x being returned (pending x updates applied — BiCGSTAB's half step); "
+            "within one iteration x receives sum c_i P_i iff r receives -sum c_i A P_i (r + A x is preserved: checked per first/later-iteration case with coefficients compared "
+            "as polynomials over Q; QMR's s = A d is discovered as an inductive image pair); r starts as b - A x; the loop is budgeted by max_iter and Ok carries 0 or the counter; "
+            "x is written only inside the loop; every other exit is Err.",
+    "design_ref": "DESIGN.md §3 C08, Appendix B",
+    "note": "An inductive invariant in exact arithmetic. Not decided: finiteness of x at success and the floating-point drift between the recurrence residual and the true residual.",
+    "technique": TECH + "control-dependence of Ok on the tolerance test + dataflow over a linear-combination abstract domain (relational invariant r + A*x) with a first-iteration case split",
+}
+CHECKS["C09"] = {
+    "text": "ONLY the degenerate-start clause of the property: in each of the four solvers the divisor of every residual normalisation passes `if n == 0.0 { n = 1.0 }` "
+            "after its definition and before its first use, and before the loop the initial residual (or its identity-preconditioned copy) is tested against tol with "
+            "Ok(0) returned and x untouched — so an exact initial guess and a zero right-hand side with zero guess are accepted with x finite.",
+    "design_ref": "DESIGN.md §3 C09, §7",
+    "note": "The bulk of C09 — convergence within O(n) iterations on SPD / diagonally dominant systems and agreement with the direct solution to tol*cond(A) — quantifies over values of "
+            "Krylov recurrences and is NOT decided (not applicable to static analysis); no claim is made for it.",
+    "technique": TECH + "def-guard-use pattern on the norm divisor, sibling start-up agreement (only the degenerate-start clause; convergence is not applicable)",
+}
+
 NOT_APPLICABLE = {
 }
 for _i in range(1, 21):
